@@ -5,7 +5,7 @@
    the receiver are ARBITRARY, except that every ciphertext term occurring in them is
    one the sender produced in this direction under this key (earlier, or in the
    transcript under attack); all other bytes are [Raw]. *)
-From Coq Require Import List NArith ZArith Lia Bool.
+From Coq Require Import List NArith ZArith Lia Bool Arith.
 From Coq Require Import ZifyBool ZifyN ZifyNat.
 From Cedar Require Import Lib.Bytes Lib.Sym gen.Consts Model.Frame Model.FrameSpec
      Proofs.FrameBase Proofs.C12Nonce.
@@ -297,4 +297,43 @@ Proof.
     assert (Huse2 : uses_only K r').
     { intros g ivo ct Hin Hb. eapply Huse; [right; exact Hin|exact Hb]. }
     exact (IH _ _ _ _ _ _ _ D2 Hk1 He1 Hwf1 Hrest HK1 Huse2).
+Qed.
+
+Lemma skipn_app_exact_len {A} (a b : list A) n : length a = n -> skipn n (a ++ b) = b.
+Proof. intros <-. rewrite skipn_app, Nat.sub_diag, skipn_all. reflexivity. Qed.
+
+(* ---- reflection: a stream does not accept its own frames ------------------ *)
+Local Transparent nonce_of.
+Lemma nonce_tail iv c : (4 <= length iv)%nat -> skipn 4 (nonce_of iv c) = skipn 4 iv.
+Proof.
+  intro H. unfold nonce_of. apply skipn_app_exact_len. apply be_enc_length.
+Qed.
+Local Opaque nonce_of.
+
+(* A frame B itself sealed (at any counter c of its send direction) is rejected when it is
+   handed back to B, with any header and IV prefix, provided the two directions' base IVs
+   differ beyond their leading counter word, or - for B's first frame - provided B's send and
+   receive handshake digests differ (they do after every real handshake: the two directions
+   carry different cleartext). *)
+Lemma reflection_rejected B k c a p f' ivo :
+  enc_active B = true -> key B = Some k ->
+  f_body f' = Ct ivo (seal k (nonce_of (enc_iv B) c) a p) ->
+  (4 <= length (enc_iv B))%nat -> (4 <= length (dec_iv B))%nat ->
+  (* what protects: *)
+  ((dec_ctr B <> 0 /\ skipn 4 (dec_iv B) <> skipn 4 (enc_iv B)) \/
+   (dec_ctr B = 0 /\ fin_recv_aad B = false /\
+    forall h, a <> AadFirst (dg_value (recv_dg B)) (dg_value (send_dg B)) h)) ->
+  exists e, snd (recv_frame_we B f') = SErr e.
+Proof.
+  intros Hact Hk Hb Hlen Hlen2 Hprot.
+  destruct (recv_frame_we B f') as [B1 [[d' fl']|e]] eqn:Er; [|eexists; reflexivity].
+  exfalso.
+  destruct (recv_we_enc_inv _ _ _ _ _ _ Hact Hk Er) as [ivo1 [ct [div [Hb1 [_ [_ [Hcase Hopen]]]]]]].
+  rewrite Hb in Hb1. injection Hb1 as _ <-.
+  apply open_only_seal in Hopen. apply seal_inj in Hopen as [_ [En [Ea _]]].
+  destruct Hprot as [[Hn0 Htail]|[H0 [Hfin Hno]]].
+  - destruct Hcase as [[H0 _]|[_ [_ Hd]]]; [contradiction|]. subst div.
+    apply (f_equal (skipn 4)) in En.
+    rewrite !nonce_tail in En by assumption. apply Htail. congruence.
+  - unfold aad_recv in Ea. rewrite Hfin in Ea. eapply Hno. first [exact Ea|symmetry; exact Ea].
 Qed.
